@@ -54,6 +54,20 @@ def crun (s : St) (evs : List CEv) : St := evs.foldl cstep s
 are what the budget is about -/
 def inHead (s : St) : Bool := s.phase == .head
 
+/-! ### a canonical schedule for one head (refinement of the response level by the event level) -/
+
+/-- one head of exactly `S` bytes delivered to a state with an empty buffer by a peer that sends the
+head and then waits (so nothing but head bytes is available): `bufio` fills when its buffer is
+empty, the parser takes what is buffered, the blank line ends the head. `fuel` bounds the number of
+events (two per socket read). -/
+def feed : Nat → St → Nat → St
+  | 0, s, _ => s
+  | fuel + 1, s, S =>
+    if s.phase != .head then s
+    else if S ≤ s.headSize then step s (.endHead false)
+    else if s.buffered = 0 then feed fuel (step s (.net s.B (S - s.headSize))) S
+    else feed fuel (step s (.parse (S - s.headSize))) S
+
 /-! ### response level -/
 
 /-- one response as the peer sends it: the sizes (status line .. blank line) of the non-terminal
